@@ -6,6 +6,8 @@
 //! `catch_unwind`).  The model predicts exactly these classes.
 #[path = "../d_common.rs"]
 mod d_common;
+#[path = "../consensus_e.rs"]
+mod consensus_e;
 
 use celestia_proto::proof::pb::Proof as RawProof;
 use celestia_proto::share::eds::byzantine::pb::{BadEncoding as RawBefp, Share as RawBefpShare};
@@ -689,6 +691,112 @@ impl C16 {
     }
 }
 
+impl C16 {
+    /// ShrEx/Sub notifications and ShrEx EDS responses
+    fn gen_shrex(&mut self, rng: &mut Rng, n: usize, out: &mut Emitter) {
+        use celestia_proto::share::p2p::shrex::sub::RecentEdsNotification;
+        let empty = lumina_node::verif::p2p::shrex::pool_tracker::empty_eds_data_hash();
+        let emit = |out: &mut Emitter, height: u64, hash: &[u8], tag: &str| {
+            out.op(format!("edsn height={height} hash={} empty={}", hx(hash), hx(&empty)), tag, true);
+        };
+        for _ in 0..n {
+            let h = rng.bytes(32);
+            let height = *rng.pick(&[1u64, 2, 1000, u64::MAX]);
+            emit(out, height, &h, "edsn/honest");
+            // byte-level mutations of the honest encoding, re-read with prost (trusted) into the raw structure
+            let bytes = RecentEdsNotification { height, data_hash: h.clone() }.encode_to_vec();
+            for _ in 0..4 {
+                let (b, tag) = mutate_bytes(rng, &bytes);
+                if let Ok(raw) = RecentEdsNotification::decode(&b[..]) {
+                    emit(out, raw.height, &raw.data_hash, &format!("edsn/bytes-{tag}"));
+                }
+            }
+        }
+        emit(out, 0, &rng.bytes(32), "edsn/zero-height");
+        emit(out, 5, &[0u8; 32], "edsn/zero-hash");
+        emit(out, 5, &[], "edsn/empty-hash");
+        emit(out, 5, &[0u8; 7], "edsn/short-zero-hash");
+        emit(out, 5, &rng.bytes(31), "edsn/31-bytes");
+        emit(out, 5, &rng.bytes(33), "edsn/33-bytes");
+        emit(out, 5, &empty.clone(), "edsn/empty-block-hash");
+        // EDS responses: honest ODS of small squares against their DAH, then length abuse
+        for w in [2usize, 4, 8] {
+            let (eds, _) = gen_eds(rng, w);
+            let dah = DataAvailabilityHeader::from_eds(&eds);
+            out.op(dah_op(&dah), &format!("dah/w{w}-edsresp"), true);
+            let mut ods: Vec<Vec<u8>> = vec![];
+            for r in 0..w / 2 {
+                for c in 0..w / 2 {
+                    ods.push(eds.share(r as u16, c as u16).unwrap().to_vec());
+                }
+            }
+            let line = |sh: &[Vec<u8>], tail: &[u8]| format!("edsresp data={} tail={}", hxl(sh), hx(tail));
+            out.op(line(&ods, &[]), "edsresp/honest", true);
+            out.op(line(&[], &[]), "edsresp/empty", true);
+            out.op(line(&ods, &[0]), "edsresp/one-byte-more", true);
+            out.op(line(&ods[..ods.len() - 1], &ods[ods.len() - 1][..511]), "edsresp/one-byte-less", true);
+            out.op(line(&ods[..ods.len() - 1], &[]), "edsresp/one-share-less", true);
+            let mut v = ods.clone();
+            v.push(ods[0].clone());
+            out.op(line(&v, &[]), "edsresp/one-share-more", true);
+            let mut v = ods.clone();
+            v.reverse();
+            out.op(line(&v, &[]), "edsresp/reversed", true);
+            let mut v = ods.clone();
+            let i = rng.usize(0, v.len() - 1);
+            let j = rng.usize(0, 511);
+            v[i][j] ^= 1 << rng.below(8);
+            out.op(line(&v, &[]), "edsresp/bitflip", true);
+            let gl = rng_len(rng);
+            out.op(line(&[], &rng.bytes(gl)), "edsresp/garbage", true);
+        }
+        // 129 x 129 zero shares: more shards per row than leopard supports
+        out.op(format!("edsresp data={} tail=-", hxl(&vec![vec![0u8; 512]; 129 * 129])), "edsresp/129x129", true);
+    }
+
+    /// extended headers: honest encodings (deterministic keys), mutated at byte level
+    fn gen_headers(&mut self, rng: &mut Rng, n: usize, out: &mut Emitter) {
+        use consensus_e::*;
+        use tendermint_proto::Protobuf;
+        for _ in 0..n {
+            let nparties = rng.usize(1, 4);
+            let parties: Vec<Party> = (0..nparties).map(|_| {
+                let p = rng.range(1, 1000);
+                new_party(rng, p)
+            }).collect();
+            let (ordered, set) = set_of_parties(&parties);
+            let hw = *rng.pick(&[2usize, 4]);
+            let (eds, _) = gen_eds(rng, hw);
+            let dah = DataAvailabilityHeader::from_eds(&eds);
+            let height = rng.range(1, 1_000_000);
+            let eh = make_header(rng, "private", height, 1_700_000_000_000_000_000, AppVersionLatest(), None, &ordered, &set, &set, dah, &|_| true);
+            let bytes = eh.encode_vec();
+            out.op(format!("eh bytes={}", hx(&bytes)), "eh/honest", true);
+            for _ in 0..12 {
+                let (b, tag) = mutate_bytes(rng, &bytes);
+                out.op(format!("eh bytes={}", hx(&b)), &format!("eh/{tag}"), true);
+            }
+            // several mutations at once
+            for _ in 0..6 {
+                let mut b = bytes.clone();
+                for _ in 0..rng.usize(2, 6) {
+                    b = mutate_bytes(rng, &b).0;
+                }
+                out.op(format!("eh bytes={}", hx(&b)), "eh/multi-mutation", true);
+            }
+        }
+    }
+}
+
+#[allow(non_snake_case)]
+fn AppVersionLatest() -> u64 {
+    celestia_types::AppVersion::latest().as_u64()
+}
+
+fn rng_len(rng: &mut Rng) -> usize {
+    *rng.pick(&[1usize, 511, 513, 1000, 1024, 1536])
+}
+
 /// byte-level mutations (the "coverage-free mutation fuzzing seeded from honest encodings" of the property)
 fn mutate_bytes(rng: &mut Rng, b: &[u8]) -> (Vec<u8>, &'static str) {
     let mut v = b.to_vec();
@@ -750,6 +858,8 @@ impl Prop for C16 {
             }
         }
         self.gen_framing(rng, if tier == Tier::Thorough { 200 } else { 30 }, out);
+        self.gen_shrex(rng, if tier == Tier::Thorough { 150 } else { 25 }, out);
+        self.gen_headers(rng, if tier == Tier::Thorough { 40 } else { 6 }, out);
     }
     fn run(&mut self, line: &str) -> String {
         match opname(line) {
@@ -862,6 +972,25 @@ impl Prop for C16 {
                     lumina_node::verif::p2p::header_ex::codec_read_request(&mut io).await
                 });
                 cls(r).into()
+            }
+            "edsn" => {
+                use celestia_proto::share::p2p::shrex::sub::RecentEdsNotification;
+                let (Some(height), Some(hash)) = (arg_u64(line, "height"), arg_hex(line, "hash")) else { return "bad-op".into() };
+                let bytes = RecentEdsNotification { height, data_hash: hash }.encode_to_vec();
+                cls(lumina_node::verif::p2p::shrex::pool_tracker::eds_notification_deserialize_and_validate(&bytes)).into()
+            }
+            "edsresp" => {
+                let Some(dah) = &self.dah else { return "no-dah".into() };
+                let (Some(data), Some(tail)) = (arg(line, "data").and_then(unhxl), arg_hex(line, "tail")) else { return "bad-op".into() };
+                let mut raw: Vec<u8> = data.concat();
+                raw.extend_from_slice(&tail);
+                let _ = lumina_node::verif::p2p::shrex::codec::eds_decode_and_verify(&raw, HEIGHT, dah, app());
+                "nopanic".into()
+            }
+            "eh" => {
+                let Some(b) = arg_hex(line, "bytes") else { return "bad-op".into() };
+                let _ = ExtendedHeader::decode_and_validate(&b);
+                "nopanic".into()
             }
             "hxresp" => {
                 let Some(b) = arg_hex(line, "bytes") else { return "bad-op".into() };
